@@ -1,10 +1,36 @@
 import Cql.Gen.Conversions
+import Cql.TimeConv
 namespace Driver.Conv
 open Cql.Gen.Conv
+
+def showR : Cql.TimeConv.R → String
+  | .ok v => s!"ok {v}"
+  | .outOfRange => "err"
+
+/-- `conv time millis <unix seconds> <nanos>`, `conv time totime <millis>`, `conv time days <unix seconds>`,
+`conv time fromdays <days>`, `conv time dur <nanos>`: the overflow-checked time conversions of `Cql/TimeConv.lean` -/
+def timeOp : List String → String
+  | ["millis", s, n] => match s.toInt?, n.toInt? with
+    | some s, some n => showR (Cql.TimeConv.timeToEpochMillis s n)
+    | _, _ => "bad-op"
+  | ["totime", m] => match m.toInt? with
+    | some m => let r := Cql.TimeConv.epochMillisToTime m; s!"{r.1} {r.2}"
+    | none => "bad-op"
+  | ["days", s] => match s.toInt? with
+    | some s => showR (Cql.TimeConv.timeToEpochDays s)
+    | none => "bad-op"
+  | ["fromdays", d] => match d.toInt? with
+    | some d => s!"{Cql.TimeConv.epochDaysToTime d}"
+    | none => "bad-op"
+  | ["dur", d] => match d.toInt? with
+    | some d => showR (Cql.TimeConv.durationToNanosOfDay d)
+    | none => "bad-op"
+  | _ => "bad-op"
 
 /-- `conv <helper> <int>` → `ok <int>` | `err` -/
 def handle (args : List String) : String :=
   match args with
+  | "time" :: rest => timeOp rest
   | [name, v] => match helpers.find? (·.1 == name), v.toInt? with
     | some h, some x => (match h.2.2.2 x with | .ok y => s!"ok {y}" | .error _ => "err")
     | _, _ => "bad-op"
